@@ -130,6 +130,7 @@ type WorkerResult struct {
 	PathsByKind  map[string]int         `json:"paths_by_kind"`
 	Exhausted    bool                   `json:"dfs_exhausted"`
 	Killed       bool                   `json:"killed_by_signal,omitempty"`
+	RuntimeErrs  map[string]int         `json:"target_runtime_errors,omitempty"`
 	Asserts      map[string]*assertStat `json:"asserts"`
 	Candidates   []Candidate            `json:"candidates"`
 	Unsupported  map[string]int         `json:"unsupported,omitempty"`
@@ -309,6 +310,9 @@ func runWorker(res *WorkerResult, repo, prop, harness, tier, solverKind string, 
 	res.Paths = e.Paths
 	res.PathsByKind = e.PathsByKind
 	res.Exhausted = !e.Truncated
+	if len(runtimeErrorSites) > 0 {
+		res.RuntimeErrs = runtimeErrorSites
+	}
 	res.Asserts = e.Asserts
 	res.Candidates = e.Candidates
 	res.Unsupported = e.Unsupported
@@ -868,6 +872,14 @@ func TestVerifReplay(t *testing.T) {
 			// that no recover() contains confirms a failed no-crash assertion
 			return true, out
 		}
+		// a panic on a goroutine the harness does not control (the compiler's own import /
+		// parse goroutines) kills the process before nd.Recovered can report it: for a
+		// no-crash assertion that is the crash itself, provided the trace runs through the
+		// code under test and not through the harness
+		if strings.Contains(label, "no-crash") && strings.Contains(out, "\npanic: ") && strings.Contains(out, "github.com/anz-bank/sysl/") &&
+			!strings.Contains(out, "VERIF-ASSERT-FAILED") {
+			return true, out
+		}
 		return false, "native run failed differently (expected assertion " + label + ")\n" + out
 	}
 	if strings.Contains(out, "VERIF-ASSERT-FAILED") || strings.Contains(out, "panic:") || strings.Contains(out, "fatal error:") || strings.Contains(out, "VERIF-EXIT") {
@@ -1027,6 +1039,7 @@ func report(repo, prop, tier string, results []*WorkerResult, hfs []harnessFile,
 			"asserts": r.Asserts, "forks": r.Forks, "solver_queries": r.Queries, "sat": r.QSat, "unsat": r.QUnsat, "unknown": r.QUnknown,
 			"solver_errors": r.QErrors, "solver_s": r.SolverS, "wall_s": r.WallS, "load_s": r.LoadS, "unsupported": r.Unsupported,
 			"inconclusive": r.Inconclusive, "candidates": len(r.Candidates), "repo_functions": r.RepoFuncs, "init_notes": r.InitNotes,
+			"target_runtime_errors": r.RuntimeErrs,
 			"feasibility_by_cached_model": r.ModelHits,
 		})
 		// candidates: group by label, replay up to 3 per label
